@@ -12,7 +12,7 @@ import re as _re
 import builtins
 import functools
 import z3
-from .values import SymStr, SymBool, sym_or, sym_and, zcp, _selems
+from .values import SymStr, SymBool, SymEnum, sym_or, sym_and, zcp, _selems
 from .core import Escape
 
 
@@ -166,6 +166,8 @@ class SymReModule:
         return getattr(_re, name)
 
     def _do(self, pattern, s, mode):
+        if isinstance(s, SymEnum):
+            s = s.get()         # finite choice: fork over the alternatives, then the real re decides
         if isinstance(s, SymStr) and not s.is_concrete():
             self.patterns.append(pattern)
             r = match_symstr(pattern, s, mode)
